@@ -22,6 +22,7 @@ type form struct {
 	Ident   string // identity this form genuinely authenticates ("" = none)
 	Claimed string // local user name the request names without proving it
 	Prep    string // "", warm, lock, revoke-warm, expired-cached, warm-good
+	Payload string // a request body that PASSES the route's payload validation (no credentials in it that authenticate)
 }
 
 func basic(user, pass string) string {
